@@ -19,8 +19,19 @@ def is_nan(x):
 
 
 def body_raw(E, cu, ai, wait, stage, which, base):
+    """Real mode (replay): which result file the library looks at first depends on the directory order of the real
+    disk, which is not the model's sorted order; for the unreadable-file stages the replay therefore asks the same
+    question for the mirrored batch as well and fails if either fails."""
+    if E is REAL and concretize(stage, 0, 4) in (2, 4):
+        w = concretize(which, 1, 2)
+        return _raw(E, cu, ai, wait, stage, w, base) and _raw(E, cu, ai, wait, stage, 3 - w, base)
+    return _raw(E, cu, ai, wait, stage, which, base)
+
+
+def _raw(E, cu, ai, wait, stage, which, base):
     cu = concretize(cu, 0, 2)              # clean_up None / True / False
-    stage = concretize(stage, 0, 3)        # 0 none, 1 a result missing, 2 a result unreadable, 3 a result over-long
+    stage = concretize(stage, 0, 4)        # 0 none, 1 a result missing, 2 a result cut short, 3 a result over-long,
+    #                                        4 a result file of zero bytes
     which = concretize(which, 1, 2)        # which batch is affected
     ai, wait = cbool(ai), cbool(wait)
     clean_up = [None, True, False][cu]
@@ -37,6 +48,8 @@ def body_raw(E, cu, ai, wait, stage, which, base):
         rfile = crop_dir(env) + "/results/xyz-result-%d.jbdmp" % which
         if stage == 2:
             env.make_unreadable(rfile)
+        if stage == 4:
+            env.make_unreadable(rfile, kind="empty")
         if stage == 3:
             env.write_obj(rfile, tuple(env.read_obj(rfile)) + (0,))     # the kind of dump check_bad repairs
         snap = env.snapshot(crop_dir(env))
@@ -237,7 +250,7 @@ _G = globals()
 
 CONDS = [
     make_cond(_G, "raw", body_raw, "cu:int ai:bool wait:bool stage:int which:int base:int",
-              ["0 <= cu <= 2 and 0 <= stage <= 3 and 1 <= which <= 2"], timeout=300,
+              ["0 <= cu <= 2 and 0 <= stage <= 4 and 1 <= which <= 2"], timeout=300,
               bounds="raw crop of 2 batches (sizes 2 and 1); clean_up None/True/False x allow_incomplete x wait x "
                      "{no failure, result of batch 1|2 missing / unreadable / over-long}; followed by the "
                      "corrected retry (grow_missing / check_bad) and a second reap"),
